@@ -4,8 +4,10 @@ import json, os, sys
 HERE = os.path.dirname(os.path.dirname(os.path.abspath(__file__)))
 # what had to be strengthened before the check caught the change ("" = caught as it was)
 AFTER = {
+    "C07-sparse2-last-group-not-trimmed": "directed boundary configurations: sparse_super2 with the last group right below / at the keep rule (the covering sampler only met the motif by luck: after one more factor was added to the lattice the same seed no longer did)",
+    "C07-stride-bitmap-past-group-end": "directed boundary configurations: without flex_bg, the stride that shifts the bitmaps of group 1 onto the last block of the group (computed from the planned geometry)",
     "C01-rehash-dup-name-hash": "new corruption operator: the same name 2-4 times in one directory",
-    "C01-lnf-expand-quota-bigalloc": "bigalloc+quota corpus image with a 700-entry directory; directed cases wiping the largest directory",
+    "C01-lnf-expand-quota-bigalloc": "bigalloc+quota corpus image with a 700-entry directory; directed cases wiping the largest directory together with /lost+found, so that the re-created /lost+found has to grow by new clusters (an earlier 'catch' had been the unchanged tree's own pass-2 quota defect, fixed: 2873c2cd)",
     "C02-inode-scan-csum-window": "corpus image whose inode tables are 26 blocks per group (not a multiple of the 8-block scan window)",
     "C02-check-desc-one-pass": "new operator: a bitmap consistently relocated onto another owner's block (found a genuine defect first, fixed: b97b4e21)",
     "C03-wrap-to-block-1": "external journal devices (s_first = 2/3) in the journal generator",
